@@ -451,16 +451,20 @@ def spec_metadata(case, im):
             if got != ft:
                 return "first/last (end)times of chunk %d are %s, the rows say %s" % (k, got, ft)
             fn = ci.get("filename")
-            if fn != "%s-%06d" % (im.prefix, k):
+            tail = fn[len(im.prefix) + 1:] if isinstance(fn, str) and fn.startswith(im.prefix + "-") else ""
+            if not tail.isdigit():
                 return "filename of chunk %d is %s" % (k, fn)
-            expect_files.add(k)
-            a = im.files.get(k)
+            kf = int(tail)
+            if kf in expect_files:
+                return "two chunks share the file %s" % fn
+            expect_files.add(kf)
+            a = im.files.get(kf)
             if a is None:
                 return "file of chunk %d missing or undecodable" % k
             if a.tobytes() != c.data.tobytes():
                 return "file of chunk %d does not hold the rows of the chunk" % k
-            if "filesize" in ci and ci["filesize"] != im.sizes[k]:
-                return "filesize of chunk %d is %d, the file has %d bytes" % (k, ci["filesize"], im.sizes[k])
+            if "filesize" in ci and ci["filesize"] != im.sizes[kf]:
+                return "filesize of chunk %d is %d, the file has %d bytes" % (k, ci["filesize"], im.sizes[kf])
             sync = (not case["sexec"]) or case["forked"] or bool(case["order"]) or case["driver"] == "spy"
             if sync and "filesize" not in ci:
                 return "filesize of chunk %d missing after a synchronous write" % k
